@@ -11,7 +11,7 @@ RULE += (' Hash-collision, UTF-16-order and prefix key families; pair counts 999
 ASSUME = [common.TRUSTED, "keys of a Go map are distinct, so model pair lists have distinct keys"]
 META = {
     "level": "model_checking",
-    "technique": "mapping grammar, canonical serialisation and the implementation-shaped pair loop in TLA+ (Mapping.tla, MC_Struct) model-checked over all mapping strings up to 10-11 bytes; maps and byte strings computed by TLC replayed into GoMapToMapping/ValuesToMapping/ReadMapping; results validated by TLC",
+    "technique": "mapping grammar, canonical serialisation and the implementation-shaped pair loop in TLA+ (Mapping.tla, MC_Struct) model-checked over all mapping strings up to 10-11 bytes; maps and byte strings computed by TLC replayed into GoMapToMapping/ValuesToMapping/ReadMapping; results validated by TLC; heap machine MC_Fresh (recycled-buffer negative control) behind the kept serialisations",
     "text": ("TLC exhausts every mapping byte string up to 10 bytes (11 thorough) over {0,1,2,'=',';','a'}: the reference grammar round-trips, the "
              "canonical form is a sorted fixpoint with a correct size field, and the modelled pair loop of the repaired tree refines the grammar "
              "(the old six-byte rule is kept as a negative control that TLC must refute). The real conversions are then judged against "
@@ -21,6 +21,8 @@ META = {
 
 
 def check(run):
+    # who owns the memory behind a result: the machine behind the kept-result chains, the "again" twins and the edited struct copies
+    common.mc_fresh(run, controls=("pool",))
     common.mc_structs(run, kinds=("mapping",))
     run.gen("Gen_Build", consts={"Fam": "mapping"}, tag="Gen_Build_mapping")
     common.gen_structs(run, fams1=("mapping",), fams2=())
